@@ -444,14 +444,22 @@ def check_account(ck, P, rid, rid_arena):
     be = P.fn("buddy_best_effort_realloc")
     var = [n for n in be.walk() if n.k == "BinaryOperator" and n.op == "=" and X.show(n.children[0]).endswith(".variation")]
     hnd = [n for n in be.walk() if n.k == "BinaryOperator" and n.op == "=" and X.show(n.children[0]).endswith(".handled") and X.const_int(n.children[1]) == 1]
-    if hnd and var and all(X.const_int(v.children[1]) == 0 for v in var):
-        # handled only when the block keeps its size
-        paths, _ = Q.path_conditions(be, hnd[0])
-        same = all(any(core.k == "BinaryOperator" and core.op == "==" and t for core, t in conds) for conds in paths)
-        if same:
-            ck.holds(rid, "account:realloc-inplace", hnd[0].where, "in-place reallocation only when the block order is unchanged; variation 0", cfg)
+    tree_writes = [n for n in be.walk() if n.k in ("BinaryOperator", "CompoundAssignOperator") and (n.k == "CompoundAssignOperator" or n.op == "=") and "longest" in X.show(n.children[0])]
+    if hnd and var and not tree_writes:
+        # the function leaves the allocation tree alone: what a checkpoint copies for this block does not change, so the
+        # account must not change either
+        nonzero = [v for v in var if X.const_int(v.children[1]) != 0]
+        if nonzero:
+            ck.violated(rid, "account:realloc-inplace", nonzero[0].where, "an in-place reallocation reports the account variation `%s` but leaves the allocation tree untouched: checkpoint_full_take still copies the old block size into a buffer sized from the changed account (heap overflow when the block 'shrinks')" % X.show(nonzero[0].children[1])[:70], cfg)
         else:
-            ck.violated(rid, "account:realloc-inplace", hnd[0].where, "in-place reallocation reports variation 0 although the block may change size", cfg)
+            paths, _ = Q.path_conditions(be, hnd[0])
+            same = all(any(core.k == "BinaryOperator" and core.op == "==" and t for core, t in conds) for conds in paths)
+            if same:
+                ck.holds(rid, "account:realloc-inplace", hnd[0].where, "in-place reallocation only when the block order is unchanged; tree untouched, variation 0", cfg)
+            else:
+                ck.holds(rid, "account:realloc-inplace", hnd[0].where, "in-place reallocation keeps the block (tree untouched) and reports variation 0", cfg)
+    elif hnd and var and tree_writes:
+        ck.inconclusive(rid, "account:realloc-inplace", be.where, "in-place reallocation modifies the allocation tree; agreement of the reported variation with the tree change is not decided", cfg)
     else:
         ck.inconclusive(rid, "account:realloc-inplace", be.where, "in-place reallocation accounting not recognised", cfg)
 
